@@ -149,11 +149,14 @@ claim("C21",
       "interned (dynamic) atoms - IndexSet, RCU, locks, table growth - are outside.",
       K + " + finite z3 table check", "DESIGN.md §4 C21", engine="kani+z3")
 claim("C23",
-      "M: arg/3 only. Every path of MachineState::try_arg: on a structure Arg is unified exactly when "
+      "M: arg/3 and functor/3. Every path of MachineState::try_arg: on a structure Arg is unified exactly when "
       "1 <= N <= arity, with the cell at o + N; on a list exactly when N is 1 or 2, with the cell at "
       "l + N - 1 (z3 over 64-bit words, for N held as a fixnum and as a bignum cell); otherwise the goal "
-      "fails; unbound / non-integer / negative N and unbound / atomic Term raise the ISO errors.",
-      "functor/3, =../2, copy_term/2, term_variables/2, ground/1, subsumes_term/2 and the string arm "
+      "fails; unbound / non-integer / negative N and unbound / atomic Term raise the ISO errors. Every path of try_functor: an atomic term has itself / 0, "
+      "a structure its own functor cell's name / arity, a list '.' / 2; with unbound T the four error "
+      "classes of 8.5.1.3 are raised, an atom name builds name/arity, an atomic non-atom name with arity "
+      "0 is T itself.",
+      "the structure fabricated for functor/3 (heap writes), =../2, copy_term/2, term_variables/2, ground/1, subsumes_term/2 and the string arm "
       "of arg/3 are outside.",
       M, "DESIGN.md §4 C23", engine="mirsmt")
 claim("C30",
